@@ -5,59 +5,79 @@ sends anywhere else, whether it stores the version payload)."""
 
 
 def recv_loop_ops(p2p):
-    """The operations of Node.recv_loop on the node's state, in source order, as (context, source text) rows:
-    every simple statement / loop or branch condition that mentions `self`, and EVERY statement of the two
-    branches of `if command in self._registered_commands_to_handle` (so that anything added to the enqueue or
-    handler branch - a len()/iteration over the shared queue, a second append, a pop - shows up).  Fails closed
-    when the loop does not have the shape while / [try] / if-registered."""
+    """The operations of Node.recv_loop ON THE NODE'S STATE, normalised so that behaviour-preserving rewrites (renamed locals,
+    a negated test with early `continue`, the loop split into private helper methods, logging changes that do not touch
+    `self`) give the same table: every occurrence of `self.<attr>` in recv_loop and in the Node methods it calls (inlined
+    transitively; the handle_* methods are the handlers and are probed separately) is reduced to its ACCESS PATH and USE -
+    e.g. `_msg_queue.append()`, `in _registered_commands_to_handle`, `_peer_sockets[] arg:recv_msg`, `_msg_queue arg:len`,
+    `iter _msg_queue`, `store _last_msg` - and the table is the sorted multiset of these (use, count) rows.
+    Anything added on the shared state - a len()/iteration over the queue, a second append, a pop, a new node-wide
+    attribute - changes the table."""
     import ast
     import inspect
     import textwrap
-    fn = ast.parse(textwrap.dedent(inspect.getsource(p2p.Node.recv_loop))).body[0]
-    assert isinstance(fn, ast.FunctionDef) and fn.name == "recv_loop"
-    rows = []
-    found = {"while": 0, "if": 0}
+    from collections import Counter
+    rows = Counter()
+    seen = set()
 
-    def mentions_self(node):
-        return any(isinstance(n, ast.Name) and n.id == "self" for n in ast.walk(node))
+    def method_ast(name):
+        fn = ast.parse(textwrap.dedent(inspect.getsource(getattr(p2p.Node, name)))).body[0]
+        assert isinstance(fn, (ast.FunctionDef,)) and fn.name == name, name
+        return fn
 
-    def is_registered_test(t):
-        return (isinstance(t, ast.Compare) and len(t.ops) == 1 and isinstance(t.ops[0], (ast.In, ast.NotIn))
-                and "_registered_commands_to_handle" in ast.unparse(t.comparators[0]))
+    def is_node_method(name):
+        f = p2p.Node.__dict__.get(name)
+        return inspect.isfunction(f)
 
-    def walk(stmts, ctx, everything=False):
-        for st in stmts:
-            if isinstance(st, ast.Expr) and isinstance(st.value, ast.Constant) and isinstance(st.value.value, str) \
-                    and not everything:
-                continue                                   # docstring
-            if isinstance(st, ast.While):
-                found["while"] += 1
-                rows.append((ctx + "while", ast.unparse(st.test)))
-                walk(st.body, ctx + "while/", everything)
-                assert not st.orelse, "while-else in recv_loop"
-            elif isinstance(st, ast.If):
-                reg = is_registered_test(st.test)
-                if reg:
-                    found["if"] += 1
-                    assert isinstance(st.test.ops[0], ast.In), "negated membership test"
-                if reg or everything or mentions_self(st.test):
-                    rows.append((ctx + "if", ast.unparse(st.test)))
-                walk(st.body, ctx + "if/then/", everything or reg)
-                walk(st.orelse, ctx + "if/else/", everything or reg)
-            elif isinstance(st, ast.Try):
-                walk(st.body, ctx + "try/", everything)
-                for h in st.handlers:
-                    walk(h.body, ctx + "except/", everything)
-                walk(st.orelse, ctx + "try-else/", everything)
-                walk(st.finalbody, ctx + "finally/", everything)
-            elif isinstance(st, (ast.For, ast.AsyncFor, ast.With, ast.AsyncWith, ast.Match, ast.FunctionDef, ast.ClassDef)):
-                rows.append((ctx + type(st).__name__.lower(), ast.unparse(st)))     # not part of the modelled shape
+    def visit(name):
+        if name in seen:
+            return
+        seen.add(name)
+        fn = method_ast(name)
+        parent = {}
+        for n in ast.walk(fn):
+            for c in ast.iter_child_nodes(n):
+                parent[c] = n
+        for n in ast.walk(fn):
+            if not (isinstance(n, ast.Attribute) and isinstance(n.value, ast.Name) and n.value.id == "self"):
+                continue
+            path, cur = n.attr, n
+            while True:
+                p = parent.get(cur)
+                if isinstance(p, ast.Attribute) and p.value is cur:
+                    path += "." + p.attr
+                elif isinstance(p, ast.Subscript) and p.value is cur:
+                    path += "[]"
+                elif isinstance(p, ast.Call) and p.func is cur:
+                    path += "()"
+                else:
+                    break
+                cur = p
+            p = parent.get(cur)
+            if path.endswith("()") and path.count(".") == 0 and "[" not in path:
+                m = path[:-2]
+                if is_node_method(m) and not m.startswith("handle_"):
+                    visit(m)                       # a private helper of the loop: inlined
+                    continue
+            if isinstance(p, ast.Compare) and any(c is cur for c in p.comparators) and \
+                    all(isinstance(o, (ast.In, ast.NotIn)) for o in p.ops):
+                use = "in " + path
+            elif isinstance(p, (ast.For, ast.AsyncFor, ast.comprehension)) and p.iter is cur:
+                use = "iter " + path
+            elif isinstance(p, ast.Call) and any(a is cur for a in p.args):
+                use = path + " arg:" + ast.unparse(p.func)
+            elif isinstance(p, ast.keyword):
+                use = path + " kwarg:" + str(p.arg)
+            elif isinstance(getattr(cur, "ctx", None), (ast.Store, ast.Del)) or \
+                    (isinstance(p, (ast.Assign, ast.AugAssign, ast.AnnAssign)) and cur in getattr(p, "targets", [getattr(p, "target", None)])):
+                use = "store " + path
+            elif isinstance(p, ast.AugAssign) and p.target is cur:
+                use = "augstore " + path
             else:
-                if everything or mentions_self(st):
-                    rows.append((ctx.rstrip("/") if ctx else "top", ast.unparse(st)))
-    walk(fn.body, "")
-    assert found == {"while": 1, "if": 1}, "recv_loop is not `while ...: [try: recv] ... if command in registered`: %r" % found
-    return rows
+                use = path
+            rows[use] += 1
+    visit("recv_loop")
+    return [(use, str(cnt)) for use, cnt in sorted(rows.items())]
 
 
 def register(gt):
@@ -113,7 +133,7 @@ def register(gt):
         out += "Definition probe : list (bytes * bytes * list (bytes * bytes) * Z * bool) :=\n  %s.\n" % gt.coq_list(
             "(%s, %s, %s, %s, %s)" % (gt.coq_bytes(c), gt.coq_bytes(raw), gt.coq_list(fr(f) for f in frames),
                                       gt.coq_Z(e), gt.coq_bool(k)) for (c, raw, frames, e, k) in rows)
-        out += "(* the operations of Node.recv_loop on the node's state, in source order (context, source text):\n"
+        out += "(* the operations of Node.recv_loop (and the private helpers it calls) on the node's state: (access path and use, count):\n"
         ops = recv_loop_ops(p2p)
         for (ctx, text) in ops:
             out += "     %-22s %s\n" % (ctx, text.replace("*)", "* )").replace("(*", "( *"))
